@@ -222,7 +222,7 @@ def build_module(rng, gated: set, idx: int, n_decls: int):
 def gen(tier: str, seed: int) -> list[Case]:
     rng = rng_for(seed, PID, "gen")
     gated = gated_features()
-    n = 8 if tier == "quick" else 100
+    n = 8 if tier == "quick" else 500
     cases = []
     for i in range(n):
         files = {"src/pk/__init__.py": ""}
